@@ -90,7 +90,7 @@ def gen(rng, tier):
     # ---- closing orders -------------------------------------------------------------------------
     for hv in ("1.1", "2"):
         for order in ("client_code", "client_nocode", "server", "eof", "reset", "server_then_client_silent", "client_code_echo_fails",
-                      "server_write_blocked_then_client"):
+                      "server_write_blocked_then_client", "stream_end"):
             codes = {"client_code": [1000, 1001, 3000, 4999], "server": [1000, 1001, 3999, 4000], "client_code_echo_fails": [1001, 3000, None],
                      "server_write_blocked_then_client": [1000, 1001]}.get(order, [None])
             for code in codes:
@@ -99,6 +99,8 @@ def gen(rng, tier):
                         continue
                     if order == "server_write_blocked_then_client" and hv == "2":
                         continue  # HTTP/1.1 carrier only (the write is held up at the transport)
+                    if order == "stream_end" and hv != "2":
+                        continue  # HTTP/2 carrier only: the client ends its side of the stream without a Close frame (RFC 8441 5: the TCP FIN of the tunnel)
                     cases.append(("close", hv, order, code, reason))
     # ---- requests that carry handshake fields but are not openings: no upgrade may be attempted ------------
     for method in (b"POST", b"OPTIONS", b"HEAD", b"PUT", b"DELETE"):
@@ -234,6 +236,8 @@ def _close_case(rng, n, hv, order, code, reason):
             client += [["trigger", "go"], ["settle"], ["eof"]]
         elif order == "eof":
             client += [["eof"]]
+        elif order == "stream_end":
+            client += [["feed", fb.data(1, b"", end_stream=True)]]
         else:
             client += [["reset"]]
         client.append(["settle"])
